@@ -201,3 +201,83 @@ func init() {
 		}
 	}
 }
+
+// normKind reduces a violation-key kind to the generator kind it came from: the side prefix, the "@wrapper" suffix and
+// the command variants of flow-mod/group-mod are dropped; multipart types are kept.
+func normKind(k string) string {
+	if i := strings.Index(k, ":"); i >= 0 && (k[:i] == "switch" || k[:i] == "ctrl") {
+		k = k[i+1:]
+	}
+	if i := strings.Index(k, "@"); i >= 0 {
+		k = k[:i]
+	}
+	if strings.HasPrefix(k, "flow_mod(") || strings.HasPrefix(k, "group_mod(") {
+		k = k[:strings.Index(k, "(")]
+	}
+	return k
+}
+
+// generatorLabels gives the normalised kind labels of one generated message per generator kind.
+func generatorLabels(side string) []string {
+	var out []string
+	seen := map[string]bool{}
+	add := func(m *rec.Rec) {
+		if l := normKind(kindOf(m)); !seen[l] {
+			seen[l] = true
+			out = append(out, l)
+		}
+	}
+	if side == "switch" {
+		for i, k := range gen.SwitchKinds {
+			add(gen.SwitchMessage(prng.Derive(1, 4242, uint64(i)), k))
+		}
+		return out
+	}
+	for i, k := range gen.ControllerKinds {
+		if k == "mp_request" { // every multipart request type the generator has
+			for j := 0; j < 64; j++ {
+				add(gen.ControllerMessage(prng.Derive(1, 4243, uint64(j)), k, gen.MsgOpt{}))
+			}
+			continue
+		}
+		add(gen.ControllerMessage(prng.Derive(1, 4242, uint64(i)), k, gen.MsgOpt{}))
+	}
+	return out
+}
+
+// needKinds is the completeness clause of a check's minimum: every generator kind of the given sides must have been
+// observed in the named set at least once (a case list that leaves a kind out says nothing about it).
+func needKinds(a *fw.Agg, set string, sides ...string) error {
+	have := map[string]bool{}
+	for m := range a.Sets[set] {
+		side := ""
+		if i := strings.Index(m, ":"); i >= 0 && (m[:i] == "switch" || m[:i] == "ctrl") {
+			side = m[:i]
+		}
+		have[side+"|"+normKind(m)] = true
+		have["|"+normKind(m)] = true
+	}
+	var missing []string
+	for _, s := range sides {
+		prefixed := false
+		for m := range a.Sets[set] {
+			if strings.HasPrefix(m, s+":") {
+				prefixed = true
+				break
+			}
+		}
+		for _, l := range generatorLabels(s) {
+			key := "|" + l
+			if prefixed {
+				key = s + "|" + l
+			}
+			if !have[key] {
+				missing = append(missing, s+":"+l)
+			}
+		}
+	}
+	if len(missing) > 0 {
+		return fmt.Errorf("message kinds never observed in %q: %s", set, strings.Join(missing, ", "))
+	}
+	return nil
+}
